@@ -32,6 +32,8 @@ def _local_copy(src: str, dst: str, read_only: bool) -> None:
                 raise
     else:
         if os.path.isdir(src):
+            if os.path.isdir(dst):
+                dst = os.path.join(dst, os.path.basename(src))
             os.makedirs(dst, exist_ok=True)
             shutil.copytree(src, dst, dirs_exist_ok=True)
         else:
